@@ -4,6 +4,7 @@ import IPT.Model.Range
 import IPT.Model.Qibla
 import IPT.Model.Bounded
 import IPT.Model.F64
+import IPT.Model.Cli
 /- Line-protocol driver: the Float instance of the model, one request per line, one answer per
    line.  Every f64 travels as 16 hex digits of its bit pattern. -/
 namespace IPT.Driver
@@ -385,6 +386,19 @@ def handle (toks : List String) : String :=
           | some x => "OK " ++ hexOfBits x
           | none => "ERR")
       | none => "ERR")
+    | _, _ => bad
+  | "cli" :: m :: rest =>
+    match parseMethod m, parseLoc rest with
+    | some m, some (loc, [s, e]) =>
+      (match s.toInt?, e.toInt? with
+      | some s, some e =>
+        let cfg : ParamsConfig Float := readParamsCli ⟨m, loc.coords.lat, loc.coords.lon, loc.coords.elev, loc.gmt, some s, some e⟩ 0
+        (match cliCompute cfg with
+        | .ok days =>
+          let js := renderRange days
+          s!"{js.utf8ByteSize} {hexOfBits (fnv1a js).toNat}"
+        | .error e => showPanic e)
+      | _, _ => bad)
     | _, _ => bad
   | ["rangecheck", ty] =>
     match parseBType ty with
